@@ -159,6 +159,12 @@ class _TypeQualifier(type):
 
         type_spec = (WrappedType, direction)
 
+        # Signal[Bit][bool] would be stored in the cache of Signal
+        # as Signal[bool] with the wrong base class Signal[Bit]
+        assert (
+            "_SubTypes" in cls.__dict__
+        ), f"the type qualifier {cls} is already parametrised"
+
         if type_spec in cls._SubTypes:
             return cls._SubTypes[type_spec]
 
